@@ -841,6 +841,11 @@ func cmdReplay(args []string) int {
 		fmt.Fprintln(os.Stderr, "unknown property", sc.Prop)
 		return 2
 	}
+	if sc.Expect != nil && strings.HasPrefix(sc.Expect.Class, "nondeterministic:fresh-process") && sc.N != nil && sc.N["fresh"] < 24 {
+		// A divergence that depends on the production hash seed shows in a
+		// fraction of processes only (it cannot be seeded): sample more of them.
+		sc.N["fresh"] = 24
+	}
 	res := runGuarded(p, sc)
 	if *classesOnly {
 		for _, c := range res.Classes() {
